@@ -28,6 +28,8 @@ type op struct {
 
 type rxCase struct {
 	Ops []op `json:"ops"`
+	// step, if set, is called before every operation (two queues used in turns)
+	step func()
 }
 
 func safely(f func() *vh.Failure) (res *vh.Failure) {
@@ -53,7 +55,8 @@ func runRx(c rxCase) *vh.Failure {
 		empties := false
 		nontrivial := false
 		failedRead := false
-		pktEnds := []int{} // absolute end offsets (in "total" coordinates) of packets, to detect boundary crossing
+		var held [][2][]byte // slices returned by Bytes and what they contained then
+		pktEnds := []int{}   // absolute end offsets (in "total" coordinates) of packets, to detect boundary crossing
 		crosses := func(from, to int) bool {
 			for _, e := range pktEnds {
 				if from < e && e < to {
@@ -63,6 +66,9 @@ func runRx(c rxCase) *vh.Failure {
 			return false
 		}
 		for i, o := range c.Ops {
+			if c.step != nil {
+				c.step()
+			}
 			fail := func(class, f string, a ...any) *vh.Failure {
 				return vh.Failf(class, "op %d %s: %s", i, o.K, fmt.Sprintf(f, a...))
 			}
@@ -146,6 +152,19 @@ func runRx(c rxCase) *vh.Failure {
 					var v int64
 					v, err = q.Int64()
 					got = binary.LittleEndian.AppendUint64(nil, uint64(v))
+				}
+				// slices handed out earlier still hold what they held (the caller keeps them:
+				// a parsed package refers to them)
+				for _, h := range held {
+					if !bytes.Equal(h[0], h[1]) {
+						return fail("C15/earlier-result-overwritten", "a slice returned by an earlier Bytes call read %x when it was returned and reads %x now", h[1], h[0])
+					}
+				}
+				if o.K == "bytes" && err == nil && len(got) > 0 {
+					held = append(held, [2][]byte{got, append([]byte{}, got...)})
+					if len(held) > 4 {
+						held = held[1:]
+					}
 				}
 				if n <= len(flat) {
 					if err != nil {
@@ -328,6 +347,7 @@ func TestRxModel(t *testing.T) {
 type txCase struct {
 	Size0 int  `json:"size0"`
 	Ops   []op `json:"ops"`
+	step  func()
 }
 
 type mpkt struct{ cap, fill int }
@@ -336,9 +356,9 @@ func runTx(c txCase) *vh.Failure {
 	return safely(func() *vh.Failure {
 		size := c.Size0
 		q := tds.NewPacketQueue(func() int { return size })
-		var pk []mpkt  // model layout
+		var pk []mpkt   // model layout
 		var flat []byte // bytes in the queue (written, not discarded)
-		cur := 0       // model packet index of the write frontier
+		cur := 0        // model packet index of the write frontier
 		nontrivial := false
 		sizeChanged := false
 		modelPos := func() (int, int) {
@@ -371,6 +391,9 @@ func runTx(c txCase) *vh.Failure {
 			}
 		}
 		for i, o := range c.Ops {
+			if c.step != nil {
+				c.step()
+			}
 			fail := func(class, f string, a ...any) *vh.Failure {
 				return vh.Failf(class, "op %d %s: %s", i, o.K, fmt.Sprintf(f, a...))
 			}
@@ -592,4 +615,91 @@ func minInt(a, b int) int {
 		return a
 	}
 	return b
+}
+
+// ---- two queues of one process used in turns (a receive queue and a transmit queue, or
+// the queues of two channels): what one does must not show in the other
+
+type pairCase struct {
+	Rx    rxCase `json:"receive_side"`
+	Tx    txCase `json:"transmit_side"`
+	Other rxCase `json:"second_receive_side"`
+	Turns []int  `json:"turns"` // which of the three gets to do its next operation
+}
+
+func runPair(c pairCase) *vh.Failure {
+	// three runners in their own goroutines, but only one of them runs at any time: a
+	// baton is handed over according to Turns (round robin once Turns is used up)
+	type runner struct {
+		baton chan struct{}
+		done  chan *vh.Failure
+		ended bool
+	}
+	rs := []*runner{{}, {}, {}}
+	back := make(chan int, 1)
+	for i := range rs {
+		rs[i].baton, rs[i].done = make(chan struct{}), make(chan *vh.Failure, 1)
+	}
+	mk := func(i int) func() {
+		return func() {
+			back <- i     // ready for the next operation
+			<-rs[i].baton // wait for the turn
+		}
+	}
+	rx, tx, other := c.Rx, c.Tx, c.Other
+	rx.step, tx.step, other.step = mk(0), mk(1), mk(2)
+	go func() { f := runRx(rx); rs[0].done <- f; back <- -1 }()
+	go func() { f := runTx(tx); rs[1].done <- f; back <- -2 }()
+	go func() { f := runRx(other); rs[2].done <- f; back <- -3 }()
+	waiting := map[int]bool{}
+	live := 3
+	turn := 0
+	var first *vh.Failure
+	for live > 0 {
+		// collect announcements until every live runner is waiting or has ended
+		for len(waiting) < live {
+			i := <-back
+			if i < 0 {
+				r := rs[-i-1]
+				r.ended = true
+				live--
+				if f := <-r.done; f != nil && first == nil {
+					first = f
+					f.Msg = fmt.Sprintf("(queue %d of three used in turns) %s", -i, f.Msg)
+				}
+				continue
+			}
+			waiting[i] = true
+		}
+		if live == 0 {
+			break
+		}
+		var cand []int
+		for i := range rs {
+			if waiting[i] {
+				cand = append(cand, i)
+			}
+		}
+		pick := cand[turn%len(cand)]
+		if turn < len(c.Turns) {
+			pick = cand[c.Turns[turn]%len(cand)]
+		}
+		turn++
+		delete(waiting, pick)
+		rs[pick].baton <- struct{}{}
+	}
+	if first == nil {
+		vh.Label("pair:three-queues-in-turns")
+	}
+	return first
+}
+
+func TestQueuesInTurns(t *testing.T) {
+	gen := func(rt *rapid.T) pairCase {
+		c := pairCase{Rx: genRx(rt), Tx: genTx(rt), Other: genRx(rt)}
+		n := len(c.Rx.Ops) + len(c.Tx.Ops) + len(c.Other.Ops)
+		c.Turns = rapid.SliceOfN(rapid.IntRange(0, 2), n, n).Draw(rt, "turns")
+		return c
+	}
+	vh.Check(t, "TestQueuesInTurns", vh.N(3000, 60000), gen, runPair)
 }
